@@ -218,3 +218,75 @@ pub fn main(args: &[String]) {
         "constants": mla::verif::constants().iter().map(|(k, v)| (k.to_string(), json!(v))).collect::<serde_json::Map<_, _>>(),
     }));
 }
+
+/// Code -> spec direction at the constants of the build (used with production constants): seeded histories of
+/// seeks and reads on targeted stream lengths are recorded as events for TLC (spec/TraceStream.tla).
+pub fn main_trace(args: &[String]) {
+    use rand::{RngCore, SeedableRng};
+    quiet_panics();
+    let jobs = read_jsonl(&args[0]);
+    let mut tw = JsonlWriter::create(&args[1]);
+    let consts: std::collections::HashMap<&str, u64> = mla::verif::constants().iter().copied().collect();
+    let (ch, bl) = (consts["chunk"] as i64, consts["block"] as i64);
+    for job in &jobs {
+        let stack = Stack::parse(gets(job, "stack"));
+        let l = geti(job, "L") as usize;
+        let seed = job.get("seed").and_then(Value::as_u64).unwrap_or(1);
+        let offset = job.get("offset").and_then(Value::as_u64).unwrap_or(0);
+        let nops = job.get("nops").and_then(Value::as_u64).unwrap_or(40);
+        let entropy = Entropy::parse(job.get("entropy").and_then(Value::as_str).unwrap_or("low"));
+        let plain = cells::content(seed, 0, l, entropy);
+        let mut bytes = cells::content(seed ^ 0xbeef, 98, offset as usize, Entropy::High);
+        bytes.extend(stacks::write_stream(&plain, stack, 1, &[l.max(1) / 3 + 1, 4096, 1], false));
+        let sname = gets(job, "stack");
+        tw.push(&json!({"ev": "reset", "L": l, "stack": sname, "offset": offset}));
+        let mut reader = match guarded(|| stacks::reader_over(stacks::cursor(bytes.clone()), offset, stack)) {
+            Ok(Ok(r)) => r,
+            other => {
+                tw.push(&json!({"ev": "seek", "whence": "start", "arg": 0, "res": "open-failed", "ret": -1, "stack": sname,
+                                "detail": format!("{:?}", other.map(|r| r.map(|_| ()).map_err(|e| format!("{e:?}"))))}));
+                continue;
+            }
+        };
+        let mut rng = rand_chacha::ChaChaRng::seed_from_u64(seed * 7919 + l as u64);
+        let mut abs: i64 = 0;
+        let li = l as i64;
+        // interesting positions: chunk and block edges +-1, the ends
+        let mut targets: Vec<i64> = vec![0, 1, li, li - 1, li / 2];
+        for k in 0..=(li / ch) { for d in [-1, 0, 1] { targets.push(k * ch + d); } }
+        for k in 0..=(li / bl) { for d in [-1, 0, 1] { targets.push(k * bl + d); } }
+        targets.retain(|t| *t >= 0 && *t <= li);
+        let sizes: Vec<usize> = vec![0, 1, 15, 16, 17, 4095, 4096, 4097, (ch - 1) as usize, ch as usize, (ch + 1) as usize, l + 1];
+        for _ in 0..nops {
+            let r = rng.next_u32();
+            if r % 3 != 0 {
+                let t = targets[(r as usize / 3) % targets.len()];
+                let (whence, arg, sf) = match (r / 7) % 3 {
+                    0 => ("start", t, SeekFrom::Start(t as u64)),
+                    1 => ("cur", t - abs, SeekFrom::Current(t - abs)),
+                    _ => ("end", t - li, SeekFrom::End(t - li)),
+                };
+                match guarded(|| reader.seek(sf)) {
+                    Ok(Ok(p)) => tw.push(&json!({"ev": "seek", "whence": whence, "arg": arg, "res": "ok", "ret": p, "stack": sname})),
+                    Ok(Err(e)) => tw.push(&json!({"ev": "seek", "whence": whence, "arg": arg, "res": "err", "ret": -1, "stack": sname, "detail": e.to_string()})),
+                    Err(p) => tw.push(&json!({"ev": "seek", "whence": whence, "arg": arg, "res": "panic", "ret": -1, "stack": sname, "detail": p})),
+                }
+                abs = t;
+            } else {
+                let n = sizes[(r as usize / 3) % sizes.len()];
+                let mut buf = vec![0u8; n];
+                match guarded(|| reader.read(&mut buf)) {
+                    Ok(Ok(k)) => {
+                        let a = abs as usize;
+                        let ok = a + k <= l && buf[..k] == plain[a..a + k];
+                        tw.push(&json!({"ev": "read", "n": n, "res": "ok", "k": k, "from": abs, "bytes_ok": ok, "stack": sname}));
+                        abs += k as i64;
+                    }
+                    Ok(Err(e)) => tw.push(&json!({"ev": "read", "n": n, "res": "err", "k": 0, "from": abs, "bytes_ok": false, "stack": sname, "detail": e.to_string()})),
+                    Err(p) => tw.push(&json!({"ev": "read", "n": n, "res": "panic", "k": 0, "from": abs, "bytes_ok": false, "stack": sname, "detail": p})),
+                }
+            }
+        }
+    }
+    tw.finish();
+}
